@@ -295,6 +295,8 @@ class Driver:
 
     async def msg(self, cid, message=None, text=None):
         c = self.conns[cid]
+        if c.task.done():
+            return
         raw = text if text is not None else json.dumps(message)
         is_event = isinstance(message, list) and len(message) >= 2 and message[0] == "EVENT"
         if is_event:
@@ -319,7 +321,19 @@ class Driver:
         await self.settle()
         await self.free_orphans()
         if text is not None:
-            self.ops.append({"op": "badjson", "c": cid})
+            from nostr_relay.util import json_loads, JSONDecodeError
+            try:
+                json_loads(text)
+                kind = "decodes"
+            except JSONDecodeError:
+                kind = "badjson"
+            except Exception:
+                kind = "crashjson"
+            if kind == "decodes":
+                self.ops.append({"op": "msg", "c": cid, "m": json_loads(text), "limited": False, "rows": rows, "prep": self.last_prep,
+                                 "can_query": True, "add": self.last_add, "auth": {"k": "ok"}})
+            else:
+                self.ops.append({"op": kind, "c": cid})
         else:
             self.ops.append({"op": "msg", "c": cid, "m": message, "limited": False, "rows": rows, "prep": self.last_prep,
                              "can_query": True, "add": self.last_add, "auth": {"k": "ok"}})
@@ -562,7 +576,7 @@ def compare(suite, case, impl, health, model):
         suite.violate("registry-leak", case, "subscriptions remain registered after every connection ended", observed=health["registry_after_close"])
 
 
-def suite_relay(tier, seed, backend="sql", n=None, hostile=False, label="relay"):
+def suite_relay(tier, seed, backend="sql", n=None, hostile=False, label="relay", pid="RELAY"):
     s = Suite("trace:%s-%s" % (label, backend))
     s.rule = ("seeded random schedules over 1-3 connections: REQ (valid / partly invalid / hostile filters, duplicate and non-string ids), CLOSE, EVENT "
               "(valid, duplicate, bad signature), malformed frames, disconnects, interleaved with single steps of query tasks and of pending "
@@ -576,7 +590,7 @@ def suite_relay(tier, seed, backend="sql", n=None, hostile=False, label="relay")
         cases.append(case)
         impls.append(impl)
         healths.append(health)
-    outs = model_batch("relay.run", cases, pid="RELAY")
+    outs = model_batch("relay.run", cases, pid=pid)
     for case, impl, health, mo in zip(cases, impls, healths, outs):
         compare(s, case, impl, health, mo)
     return s
@@ -589,7 +603,7 @@ def filter_fields(q):
             "tags": [[n, sorted(vs)] for n, vs in (q.tags or [])]}
 
 
-def suite_live(tier, seed):
+def suite_live(tier, seed, pid="RELAY"):
     from aionostr.event import Event
     from nostr_relay.storage.base import BaseSubscription, NostrQuery
     s = Suite("corr:check-event")
@@ -634,7 +648,7 @@ def suite_live(tier, seed):
         io = bool(BaseSubscription.check_event(None, eo, qs))
         cases.append({"filters": [filter_fields(q) for q in qs], "event": ev, "_raw": fls})
         impls.append(io)
-    outs = model_batch("relay.live", [{"filters": c["filters"], "event": c["event"]} for c in cases], pid="RELAY")
+    outs = model_batch("relay.live", [{"filters": c["filters"], "event": c["event"]} for c in cases], pid=pid)
     for c, mo, io in zip(cases, outs, impls):
         s.case({"filters": c["_raw"], "event": {k: c["event"][k] for k in ("pubkey", "created_at", "kind", "tags")}}, nontrivial=io)
         s.count("matched" if io else "unmatched")
@@ -649,7 +663,7 @@ def suite_live(tier, seed):
 RAW_POOL = [None, True, False, 0, 1, -1, 5, 2145934799, 2145934800, 2 ** 64, "5", "-3", "", "x", [], [1], ["a"], {}, {"a": 1}]
 
 
-def suite_validate(tier, seed):
+def suite_validate(tier, seed, pid="RELAY"):
     from nostr_relay.storage.base import NostrQuery
     from nostr_relay.errors import StorageError
     from pydantic import ValidationError
@@ -695,7 +709,7 @@ def suite_validate(tier, seed):
             impls.append({"k": "notquery"})
         except Exception:
             impls.append({"k": "crash"})
-    outs = model_batch("relay.validate", [{"max_limit": 6000, "raw": c} for c in cases], pid="RELAY")
+    outs = model_batch("relay.validate", [{"max_limit": 6000, "raw": c} for c in cases], pid=pid)
     for c, mo, io in zip(cases, outs, impls):
         s.case(c, nontrivial=io["k"] == "ok")
         s.count("impl_" + io["k"])
@@ -707,3 +721,132 @@ def suite_validate(tier, seed):
         if mo != io:
             s.disagree(c, mo, io)
     return s
+
+
+# ------------------------------------------------------------------ hostile frames (C19)
+JSON_TYPES = [None, True, False, 0, -1, 7, 2 ** 70, "", "x", "EVENT", [], [[]], ["REQ"], {}, {"id": 5}]
+
+
+def hostile_frames(rng, evs):
+    """typed mutations: every JSON type at every position of EVENT/REQ/CLOSE/AUTH frames and of the
+    event and filter objects"""
+    out = []
+    good_ev = evs[0]
+    good_f = {"kinds": [1], "authors": [env.PUBS[0]], "#t": ["x"], "since": 5, "until": env.NOW, "limit": 3, "ids": [evs[1]["id"]]}
+    for base in (["EVENT", good_ev], ["REQ", "h", good_f], ["CLOSE", "h"], ["AUTH", good_ev]):
+        for pos in range(len(base) + 1):
+            for v in JSON_TYPES:
+                m = list(base)
+                if pos < len(m):
+                    m[pos] = v
+                else:
+                    m.append(v)
+                out.append(m)
+        out.append(base[:1])
+    for k in list(good_ev):
+        for v in JSON_TYPES:
+            out.append(["EVENT", dict(good_ev, **{k: v})])
+        out.append(["EVENT", {a: b for a, b in good_ev.items() if a != k}])
+    for k in list(good_f) + ["#e", "tags", "search", "zz"]:
+        for v in JSON_TYPES:
+            out.append(["REQ", "h", dict(good_f, **{k: v})])
+            out.append(["REQ", "h", {k: v}])
+    for v in JSON_TYPES:
+        out.append(v)
+    return out
+
+
+async def hostile_scenario(rng, backend, frames, evs):
+    d = Driver(backend, sub_limit=3, max_limit=50)
+    await d.start()
+    await d.open(0)
+    await d.open(1)
+    await d.msg(1, ["EVENT", evs[2]])
+    await d.msg(1, ["REQ", "w", {"kinds": [0, 1, 7]}])
+    for fr in frames:
+        if d.conns[0].task.done():
+            break
+        await d.msg(0, fr)
+        if d.conns[0].task.done():
+            break
+        # the connection was kept open: it must still answer a well-formed probe
+        await d.msg(0, ["REQ", "probe", {"ids": [evs[2]["id"]]}])
+        for _ in range(3):
+            if (0, "probe") in d.running_subs():
+                await d.row(0, "probe")
+        await d.msg(0, ["CLOSE", "probe"])
+    # the well-behaved connection is undisturbed: it still gets its stored rows and a live event
+    for _ in range(4):
+        if (1, "w") in d.running_subs():
+            await d.row(1, "w")
+    await d.msg(1, ["EVENT", evs[3]])
+    while d.pending:
+        await d.notify(0)
+    tr = d.transcripts()
+    ops, regs, npending = d.ops, d.registries, len(d.pending)
+    health = await d.finish()
+    cfg = {"sub_limit": d.sub_limit, "max_limit": d.max_limit, "kv": backend != "sql", "auth": False}
+    return {"cfg": cfg, "ops": ops}, {"transcripts": tr, "registries": regs, "pending": npending}, health
+
+
+def suite_hostile(tier, seed, backend="sql", pid="RELAY"):
+    s = Suite("trace:hostile-%s" % backend)
+    s.rule = ("typed-mutation grammar: every JSON type at every position of EVENT/REQ/CLOSE/AUTH frames and of the event and filter "
+              "objects (bounded-exhaustive single mutations), invalid JSON texts; each hostile frame is followed by a well-formed probe REQ "
+              "(must be answered by its stored row and EOSE) on the same connection if it was kept open, while a second well-behaved "
+              "connection keeps a subscription; transcripts, registries, escaped exceptions and leaked registrations are checked")
+    rng = rng_for(seed, "hostile-" + backend)
+    evs = [env.mk_event(i % 3, 1, env.NOW - 50 + i, [["t", "x"]], "h%d" % i) for i in range(5)]
+    frames = hostile_frames(rng, evs)
+    if tier == "quick":
+        frames = rng.sample(frames, 260)
+    rng.shuffle(frames)
+    cases, impls, healths = [], [], []
+    for i in range(0, len(frames), 6):
+        case, impl, health = env.run(hostile_scenario(rng, backend, frames[i:i + 6], evs))
+        cases.append(case)
+        impls.append(impl)
+        healths.append(health)
+    for t in ["{", "", "[1,", "nul", "[\"REQ\"", "\x00", "[" * 5000 + "]" * 5000, "\"" + "a" * 1000000 + "\""]:
+        async def one(t=t):
+            d = Driver(backend)
+            await d.start()
+            await d.open(0)
+            await d.msg(0, text=t)
+            await d.msg(0, ["REQ", "probe", {"kinds": [1]}])
+            for _ in range(2):
+                if (0, "probe") in d.running_subs():
+                    await d.row(0, "probe")
+            tr = d.transcripts()
+            ops, regs, npending = d.ops, d.registries, len(d.pending)
+            health = await d.finish()
+            return {"cfg": {"sub_limit": d.sub_limit, "max_limit": d.max_limit, "kv": backend != "sql", "auth": False}, "ops": ops}, \
+                   {"transcripts": tr, "registries": regs, "pending": npending}, health
+        case, impl, health = env.run(one())
+        cases.append(case)
+        impls.append(impl)
+        healths.append(health)
+    outs = model_batch("relay.run", cases, pid=pid)
+    for case, impl, health, mo in zip(cases, impls, healths, outs):
+        compare(s, case, impl, health, mo)
+    return s
+
+
+def replay(payload, pid):
+    """re-run the recorded schedule's message sequence is not possible without the gates' timing; the replay
+    file carries the full operation list: it is re-executed through the model and printed for inspection,
+    and live-matching violations are re-evaluated on the implementation."""
+    v = payload.get("violation") or {}
+    if v.get("cls") == "live-matching-deviates":
+        from aionostr.event import Event
+        from nostr_relay.storage.base import BaseSubscription, NostrQuery
+        env.load_config()
+        c = v["case"]
+        qs = [NostrQuery.model_validate(dict(f)) for f in c["filters"]]
+        io = bool(BaseSubscription.check_event(None, Event(**c["event"]), qs))
+        mo = model_batch("relay.live", [{"filters": [filter_fields(q) for q in qs], "event": c["event"]}], pid=pid)[0]
+        print("implementation:", io, "NIP-01:", mo)
+        print("replay:", "FAIL" if io != mo else "pass")
+        return 1 if io != mo else 0
+    print(json.dumps(payload, indent=1)[:4000])
+    return 0
